@@ -94,6 +94,15 @@ class Avr:
             self.steps += 1
             if self.steps > 3000000:
                 raise EmuError("too many steps")
+            # interrupt flag: enabled on entry; cli clears it; writing the saved SREG back re-enables it after one more instruction.
+            # While only one half of the stack pointer has been written, SP points outside the frame: an interrupt taken then would
+            # push into the callers' frames, so the two writes must sit inside the cli ... restore-SREG bracket (avr-gcc's own idiom).
+            if getattr(self, "irestore", 0) > 0:
+                self.irestore -= 1
+                if self.irestore == 0:
+                    self.iflag = 1
+            if getattr(self, "new_sph", None) is not None and getattr(self, "iflag", 1) == 1 and op != "out":
+                self.mem.violations.append("the stack pointer is half-written while interrupts are enabled (an interrupt here pushes outside the function's frame)")
             if op == "push":
                 self.mem.set_sp(self.mem.sp - 1)
                 v = self.reg.get(self.r(a[0]))
@@ -173,13 +182,16 @@ class Avr:
                     if not (isinstance(v, tuple) and v[0] == "hi"):
                         raise EmuError("SPH written with a non-pointer")
                     self.new_sph = v[1]
+                    if getattr(self, "iflag", 1) == 1:
+                        self.mem.violations.append("SPH written with interrupts enabled: until SPL follows, the stack pointer is outside the function's frame")
                 elif port == 0x3f:
                     if v != ("sreg",):
                         raise EmuError("SREG restored from a register that does not hold the saved SREG")
+                    self.irestore = 2      # takes effect after the next instruction
                 else:
                     raise EmuError("out to unsupported port %#x" % port)
             elif op == "cli":
-                pass
+                self.iflag = 0; self.irestore = 0
             elif op in ("sub", "subi", "add", "adc", "sbc", "sbci", "inc", "dec"):
                 d = self.r(a[0]); x = g(d).astype(np.int32)
                 if op in ("subi", "sbci"):
